@@ -661,7 +661,9 @@ func (g *Gen) bindLetsT(ct *Contract, vars map[string]T, st, old State, tolerant
 		if tolerant && len(env.errs) > 0 {
 			continue
 		}
-		g.reportSpecErrors(env, cl)
+		if g.reportSpecErrors(env, cl) {
+			continue // a stale definition: the clauses that use it become stale in turn
+		}
 		vars[l[0]] = t
 	}
 }
@@ -690,7 +692,9 @@ func (g *Gen) reportSpecErrors(env *Env, c Clause) bool {
 	}
 	stale := true
 	for _, e := range env.errs {
-		if !strings.Contains(e, "unknown identifier") {
+		// (a clause about the state at lock acquisition in a function that no longer acquires
+		// the lock itself is stale in the same sense)
+		if !strings.Contains(e, "unknown identifier") && !strings.Contains(e, "locked(): no lock acquired") {
 			stale = false
 		}
 	}
